@@ -5,6 +5,7 @@
 package main
 
 import (
+	"verif/harness/suites/contract"
 	"verif/harness/suites/dct"
 	"verif/harness/suites/dwt"
 	"verif/harness/suites/j2kblocks"
@@ -17,6 +18,7 @@ func main() {
 	j2kblocks.Register(s)
 	dwt.Register(s)
 	dct.Register(s)
+	contract.Register(s)
 	j2ke2e.Register(s)
 	vhlib.Main(s)
 }
